@@ -37,6 +37,23 @@ theorem returned_means_complete (d : Discipline) (cap : Nat) (prog : List (Strea
     st.outGot = progBytes .out prog ∧ st.errGot = progBytes .err prog :=
   conc_capture_complete d cap prog st hr hf
 
+/-- C14 (complete capture, content): the run-length encoded content the model predicts for a
+    stream accounts for exactly the bytes the program wrote to it — nothing lost, nothing added,
+    nothing from the other stream -/
+theorem content_accounts_for_every_byte (s : Stream) (i0 : Nat) (prog : List (Stream × Nat)) :
+    ((contentRuns s i0 prog).map Prod.snd).sum = progBytes s prog := by
+  induction prog generalizing i0 with
+  | nil => simp [contentRuns, progBytes]
+  | cons hd rest ih =>
+    obtain ⟨s', n⟩ := hd
+    unfold contentRuns progBytes
+    by_cases hs : s' = s
+    · by_cases hn : 0 < n
+      · simp [hs, hn, ih]
+      · have : n = 0 := by omega
+        simp [hs, this, ih]
+    · simp [hs, ih]
+
 /-- the original discipline (stdout to EOF, then stderr) can deadlock: the repaired defect -/
 theorem sequential_drain_can_deadlock :
     ∃ st, Reach .seq 2 (init [(.err, 3)]) st ∧ final st = false ∧ stepsFrom .seq 2 st = [] :=
